@@ -1,7 +1,7 @@
 package fakes17
 
 // minich.go — a reference interpreter for the small SELECT subset the reader's selector planners emit
-// (WITH sub-queries, WHERE/GROUP BY/HAVING/ORDER BY/LIMIT, comparisons, and/or, IN lists and IN (with-name),
+// (WITH sub-queries, SELECT DISTINCT, UNION ALL, WHERE/GROUP BY/HAVING/ORDER BY/LIMIT, comparisons, and/or, IN lists and IN (with-name),
 // match(), bitShiftLeft(), groupBitOr(), toUInt64(), intDiv(), %, +, -, *, /, the aggregates argMax, argMaxMerge,
 // countMerge, count, min, max, sum; array subscripts, splitByChar, format, (expr as name), arrayExists(x -> …, arr) with
 // tuple access x.1), over in-memory tables.
@@ -229,15 +229,17 @@ type orderItem struct {
 	desc bool
 }
 type Select struct {
-	with    map[string]*Select
-	cols    []selItem
-	from    string
-	alias   string
-	where   *Node
-	groupBy []*Node
-	having  *Node
-	orderBy []orderItem
-	limit   *Node
+	with     map[string]*Select
+	distinct bool      // SELECT DISTINCT: equal output rows are returned once (first occurrence kept)
+	unionAll []*Select // sel UNION ALL sel …: the rows of the operands one after the other
+	cols     []selItem
+	from     string
+	alias    string
+	where    *Node
+	groupBy  []*Node
+	having   *Node
+	orderBy  []orderItem
+	limit    *Node
 }
 
 type parser struct {
@@ -277,7 +279,27 @@ func ParseSelect(q string) (*Select, error) {
 	return s, nil
 }
 
+// selectStmt: one select, or several joined by UNION ALL (as the multi-selector planner renders them inside a WITH body)
 func (p *parser) selectStmt() (*Select, error) {
+	s, err := p.selectOne()
+	if err != nil {
+		return nil, err
+	}
+	for p.kw("union") {
+		p.i++
+		if err := p.eat("all"); err != nil {
+			return nil, err
+		}
+		o, err := p.selectOne()
+		if err != nil {
+			return nil, err
+		}
+		s.unionAll = append(s.unionAll, o)
+	}
+	return s, nil
+}
+
+func (p *parser) selectOne() (*Select, error) {
 	s := &Select{with: map[string]*Select{}}
 	if p.kw("with") {
 		p.i++
@@ -310,6 +332,10 @@ func (p *parser) selectStmt() (*Select, error) {
 	}
 	if err := p.eat("select"); err != nil {
 		return nil, err
+	}
+	if p.kw("distinct") {
+		p.i++
+		s.distinct = true
 	}
 	for {
 		e, err := p.expr(0)
@@ -1102,6 +1128,25 @@ func (db *DB) Exec(q string) ([]string, [][]Value, error) {
 }
 
 func (db *DB) exec(s *Select, outer map[string]*Select) ([]string, [][]Value, error) {
+	if len(s.unionAll) > 0 {
+		first := *s
+		first.unionAll = nil
+		cols, rows, err := db.exec(&first, outer)
+		if err != nil {
+			return nil, nil, err
+		}
+		for _, o := range s.unionAll {
+			c2, r2, err := db.exec(o, outer)
+			if err != nil {
+				return nil, nil, err
+			}
+			if len(c2) != len(cols) {
+				return nil, nil, fmt.Errorf("minich: UNION ALL of selects with %d and %d columns", len(cols), len(c2))
+			}
+			rows = append(rows, r2...)
+		}
+		return cols, rows, nil
+	}
 	// WITH names of the enclosing statement stay visible
 	if outer != nil {
 		merged := map[string]*Select{}
@@ -1111,7 +1156,7 @@ func (db *DB) exec(s *Select, outer map[string]*Select) ([]string, [][]Value, er
 		for k, v := range s.with {
 			merged[k] = v
 		}
-		s = &Select{with: merged, cols: s.cols, from: s.from, alias: s.alias, where: s.where, groupBy: s.groupBy, having: s.having, orderBy: s.orderBy, limit: s.limit}
+		s = &Select{with: merged, distinct: s.distinct, cols: s.cols, from: s.from, alias: s.alias, where: s.where, groupBy: s.groupBy, having: s.having, orderBy: s.orderBy, limit: s.limit}
 	}
 	var src []Row
 	if sub, ok := s.with[s.from]; ok {
@@ -1266,6 +1311,22 @@ func (db *DB) exec(s *Select, outer map[string]*Select) ([]string, [][]Value, er
 			sorted[i] = outs[j]
 		}
 		outs = sorted
+	}
+	if s.distinct {
+		seen := map[string]bool{}
+		var uniq []outRow
+		for _, o := range outs {
+			var k strings.Builder
+			for _, v := range o.vals {
+				k.WriteString(v.key())
+				k.WriteByte(0)
+			}
+			if !seen[k.String()] {
+				seen[k.String()] = true
+				uniq = append(uniq, o)
+			}
+		}
+		outs = uniq
 	}
 	if s.limit != nil {
 		v, err := (&env{db: db, sel: s, subs: subs}).eval(s.limit)
